@@ -97,3 +97,16 @@ def clobber(*arrays, j=None):
     if j is not None and n:
         j.note("caller_buffers_overwritten_after_fit")
     return n
+
+
+def as_integer(A, dt):
+    """Whole-number data cast to an integer dtype.  A narrow dtype (int32 ...) is only used when sums of products of the
+    entries stay inside it: numpy multiplies integer arrays in their own dtype, and the overflow of such a product is
+    the caller's choice of dtype, not a property of the library (DESIGN 11.5)."""
+    A = np.asarray(A)
+    dt = np.dtype(dt)
+    if dt.kind in "iu" and dt.itemsize < 8:
+        top = float(np.abs(A).max(initial=0.0))
+        if top * top * max(A.shape) >= 2.0 ** (8 * dt.itemsize - 2):
+            dt = np.dtype("int64")
+    return A.astype(dt)
